@@ -773,19 +773,24 @@ func (d *Deserializer) ReadVariableByteSlice(slice *[]byte, lenType SeriLengthPr
 	switch {
 	case maxLen > 0 && sliceLength > maxLen:
 		d.err = errProducer(ierrors.Wrapf(ErrDeserializationLengthMaxExceeded, "denoted %d bytes, max allowed %d ", sliceLength, maxLen))
+
+		return d
 	case minLen > 0 && sliceLength < minLen:
 		d.err = errProducer(ierrors.Wrapf(ErrDeserializationLengthMinNotReached, "denoted %d bytes, min required %d ", sliceLength, minLen))
+
+		return d
+	}
+
+	// only allocate after it is known that the input really holds that many bytes
+	if len(d.src[d.offset:]) < sliceLength {
+		d.err = errProducer(ErrDeserializationNotEnoughData)
+
+		return d
 	}
 
 	dest := make([]byte, sliceLength)
 	if sliceLength == 0 {
 		*slice = dest
-
-		return d
-	}
-
-	if len(d.src[d.offset:]) < sliceLength {
-		d.err = errProducer(ErrDeserializationNotEnoughData)
 
 		return d
 	}
@@ -1151,8 +1156,12 @@ func (d *Deserializer) ReadString(s *string, lenType SeriLengthPrefixType, errPr
 	switch {
 	case maxLen > 0 && strLen > maxLen:
 		d.err = errProducer(ierrors.Wrapf(ErrDeserializationLengthMaxExceeded, "string defined to be of %d bytes length but max %d is allowed", strLen, maxLen))
+
+		return d
 	case minLen > 0 && strLen < minLen:
 		d.err = errProducer(ierrors.Wrapf(ErrDeserializationLengthMinNotReached, "string defined to be of %d bytes length but min %d is required", strLen, minLen))
+
+		return d
 	}
 
 	if len(d.src[d.offset:]) < strLen {
